@@ -36,3 +36,31 @@ package blobstore
 //@   ensures in-use-handles-untouched: old(sh.useCount) != 0 ==> unchanged()
 //@   ensures dirty-idle-handle-is-queued: old(sh.useCount) == 0 && sh.writtenVersion != sh.currentVersion ==> sh.handlesToWriteIndex >= 0
 //@   ensures versions-untouched: sh.writtenVersion == old(sh.writtenVersion) && sh.currentVersion == old(sh.currentVersion)
+
+// ---------------------------------------------------------------------------
+// Storage stalls suspend the clock for exactly their own duration (C11)
+//
+// suspended(s): Suspend calls minus Resume calls this call made on s. Get and
+// GetFromComposite hand the pending Resume to the returned buffer's error
+// handler, whose Done() is called exactly once when the buffer is consumed.
+
+//@ func (*suspendingBlobAccess).Put
+//@   props C11
+//@   ensures balanced: suspended(ba.suspendable) == 0
+//@ func (*suspendingBlobAccess).FindMissing
+//@   props C11
+//@   ensures balanced: suspended(ba.suspendable) == 0
+//@ func (*suspendingBlobAccess).GetCapabilities
+//@   props C11
+//@   ensures balanced: suspended(ba.suspendable) == 0
+//@ func (*suspendingBlobAccess).Get
+//@   props C11
+//@   ensures resume-handed-to-buffer: suspended(ba.suspendable) == 1
+//@   at call WithErrorHandler#1 assert handler-resumes-the-same-clock: as(arg1, *resumingErrorHandler).suspendable == ba.suspendable
+//@ func (*suspendingBlobAccess).GetFromComposite
+//@   props C11
+//@   ensures resume-handed-to-buffer: suspended(ba.suspendable) == 1
+//@   at call WithErrorHandler#1 assert handler-resumes-the-same-clock: as(arg1, *resumingErrorHandler).suspendable == ba.suspendable
+//@ func (*resumingErrorHandler).Done
+//@   props C11
+//@   ensures resumes-once: suspended(eh.suspendable) == -1
